@@ -239,7 +239,7 @@ def aggregate_evidence(prop, tier, seed, out, wall, extra):
             "config": r.get("config"), "build": r.get("build"), "lens": r.get("lens"), "args": r.get("lens_args"), "scope": r.get("scope"),
             "states": r.get("states"), "transitions": r.get("transitions"), "fault_transitions": r.get("fault_transitions"),
             "fixpoint_reached": r.get("fixpoint"), "max_depth_completed": r.get("max_depth_completed"), "cut": r.get("cut_reason"),
-            "states_with_nonempty_buffer": r.get("states_with_nonempty_buffer"), "double_replays_identical": r.get("double_replays"),
+            "states_with_nonempty_buffer": r.get("states_with_nonempty_buffer"), "states_by_buffered_objects_0_to_5plus": r.get("states_by_buffered_objects"), "double_replays_identical": r.get("double_replays"),
             "fresh_thread_conformance_checks": r.get("fresh_thread_checks"), "vacuity": r.get("vacuity"), "wall_s": r.get("wall_s"),
             "pruned_other_properties": [{"property": p["property"], "count": p["count"], "sample": p["sample"]["history_pretty"], "message": p["sample"]["violations"][0]["message"]} for p in r.get("pruned_other_properties", [])],
         })
